@@ -38,6 +38,10 @@ USER = [
     ['type', 'NR', None, None],
     ['unit', 'NR', 'µx', ['none']],
     ['unit', 'NR', 'x y', ['none']],
+    # symbols with blanks at their ends and inside
+    ['unit', 'R', 'zz ', ['scaled', 'i:7', 'Ω']],
+    ['unit', 'R', ' zy', ['scaled', 'i:9', 'Ω']],
+    ['unit', 'NR', 'a  b', ['none']],
 ]
 CURRENCIES = ['EUR', 'JPY', 'TND', 'CLF', 'USD', 'BHD']
 
@@ -131,11 +135,14 @@ def text_round_trip(w, q, st=None):
             f"{q}" != s:
         out.append(('C18:text:str', f"str({q!r}) = {s!r}, format = "
                     f"{format(q)!r}"))
-    for fname, f in (('generic', lambda: Q.Quantity(s)),
-                     ('own', lambda: cls(s)),
-                     ('padded', lambda: Q.Quantity('  ' + s + '  ')),
-                     ('two-blanks', lambda: Q.Quantity(
-                         s.replace(' ', '  ', 1)))):
+    forms = [('generic', lambda: Q.Quantity(s)), ('own', lambda: cls(s))]
+    if u.symbol == u.symbol.strip():
+        # (a symbol with blanks at its ends is only found as it is written)
+        forms += [('padded', lambda: Q.Quantity('  ' + s + '  ')),
+                  ('two-blanks', lambda: Q.Quantity(s.replace(' ', '  ', 1)))]
+    else:
+        forms += [('padded', lambda: Q.Quantity('  ' + s))]
+    for fname, f in forms:
         try:
             r = f()
         except Exception as exc:
@@ -279,7 +286,7 @@ def run(tier, seed):
     total = Stats()
     syms = list(O.UNIT_REF) + ['Ω', 'kΩ', 's2', 'kΩ·s2', '%', '‰', 'µx',
                                'x y', '\u2126', 'k\u2126', '\u212b',
-                               'e\u0301m'] + CURRENCIES
+                               'e\u0301m', 'zz ', ' zy', 'a  b'] + CURRENCIES
     nums = NUMS
     total.merge(pmap(part_units, [syms[i::16] for i in range(16)], (nums,),
                      fresh=True))
